@@ -18,6 +18,7 @@ import (
 	"errors"
 	"fmt"
 	"sort"
+	"strings"
 	"sync"
 	"time"
 
@@ -396,6 +397,8 @@ type ftFlow struct {
 	name   string
 	nodeID bool // needs lookup by node ID: runs on the ordered back end only
 	refErr bool // the fault-free call is expected to fail (observation flow)
+	refAny bool // the outcome of the fault-free call depends on the back end and is not asserted
+	once   bool // also run on the store-once back end in the quick tier
 	mk     func(w *ftWorld) ftInst
 }
 
@@ -478,14 +481,14 @@ func ftFetchFlow(mode string) func(w *ftWorld) ftInst {
 							return fmt.Errorf("authorize existing key: %w", err)
 						}
 					}
-				case "wrapper":
+				case "wrapper", "wrapper-again":
 					if n, err = world.NewNode(false, ""); err != nil {
 						return err
 					}
 					if req, err = n.FetchRequest(nodeenrollment.WithRegistrationWrapper(w.s.RW), nodeenrollment.WithWrappingRegistrationFlowApplicationSpecificParams(ftState("params"))); err != nil {
 						return err
 					}
-				case "rewrapped":
+				case "rewrapped", "rewrapped-again":
 					via, err := w.enroll(world.FlowAuthorize, nil)
 					if err != nil {
 						return err
@@ -506,6 +509,11 @@ func ftFetchFlow(mode string) func(w *ftWorld) ftInst {
 					req.RewrappingKeyId = via.Node.K.KeyID
 				}
 				w.own = append(w.own, n.K.KeyID)
+				if strings.HasSuffix(mode, "-again") {
+					if _, err := registration.FetchNodeCredentials(w.ctx, w.s.Store, req, w.s.Opts()...); err != nil {
+						return fmt.Errorf("first fetch: %w", err)
+					}
+				}
 				return nil
 			},
 			call: func() error {
@@ -898,6 +906,9 @@ var ftFlows = []*ftFlow{
 	{name: "fetch-token-existing-key", refErr: true, mk: ftFetchFlow("token-existing-key")},
 	{name: "fetch-wrapper", mk: ftFetchFlow("wrapper")},
 	{name: "fetch-rewrapped", mk: ftFetchFlow("rewrapped")},
+	// the node repeats its wrapping-flow fetch: the key already has a record (store-once refuses the overwrite)
+	{name: "fetch-wrapper-again", refAny: true, once: true, mk: ftFetchFlow("wrapper-again")},
+	{name: "fetch-rewrapped-again", refAny: true, once: true, mk: ftFetchFlow("rewrapped-again")},
 	{name: "create-token", mk: func(w *ftWorld) ftInst {
 		var id, tok string
 		return ftInst{
@@ -1012,7 +1023,9 @@ func ftRunCase(c *engine.Ctx, agg *ftAgg, cs ftCase) (int, bool) {
 		return count, false
 	}
 	if cs.Pos == 0 {
-		if (cerr != nil) != fl.refErr {
+		if fl.refAny {
+			r.Count(fmt.Sprintf("reference_outcome:%s:%s:wrapper=%v:error=%v", cs.Flow, cs.Backend, cs.Wrap, cerr != nil), 1)
+		} else if (cerr != nil) != fl.refErr {
 			if fl.refErr {
 				// an observation flow whose fault-free run is expected to be refused was not refused on this
 				// tree: that is for the property that owns the refusal to judge (C06), not a harness defect;
@@ -1119,6 +1132,15 @@ func runFaults(c *engine.Ctx) engine.Result {
 					b = world.Ordered
 				}
 				groups = append(groups, &group{cs: ftCase{Flow: fl.name, Backend: b, Wrap: wrap}})
+			}
+		}
+	}
+	if c.Quick() {
+		for _, wrap := range []bool{false, true} {
+			for _, fl := range ftFlows {
+				if fl.once {
+					groups = append(groups, &group{cs: ftCase{Flow: fl.name, Backend: world.StoreOnce, Wrap: wrap}})
+				}
 			}
 		}
 	}
